@@ -157,7 +157,7 @@ def conv_track(chk, rid, run_):
                     chk.decide(rid, cons + f"/push({c})", True if ok else (False if v == {"0"} else None),
                                f"Forward with write_ics: tracking state {sorted(v)}", rel=run_.rel, node=rec.node)
                     if ok:
-                        tri(chk, rid, cons + f"/push({c})", prove_eq(st, Lin.sym(f"top({c})") - rec.arg(0)), run_, rec,
+                        tri(chk, rid, cons + f"/push({c})", prove_eq(st, Lin.sym(top_syms(it, c)) - rec.arg(0)), run_, rec,
                             "tracked step minus n0 of the writing Forward")
                 elif wi is False:
                     chk.decide(rid, cons + f"/nopush({c})", True if v == {"0"} else (False if v == {"P"} else None),
